@@ -93,6 +93,12 @@ CLAIMED["C10"] = {
     "note": "Slot-level theorem for the single-element insert of non-relocatable types; the other operations are covered at model level + exhaustive correspondence. For rvalue references to own elements the moved-from source value is unspecified and not compared.",
     "design": "5 C10"}
 
+CLAIMED["C09"] = {
+    "technique": "Coq proofs over a slot-level model with a throw oracle (strong guarantee of growing resize / append / insertion at the end, basic guarantee of assign(n,v), clean-up of uninitialized_fill_n, refutation witness for the known finding) + complete fault enumeration on the implementation (every throw index of every scenario) with element and allocator ledgers",
+    "text": "PARTIAL. Theorems of coq/Properties_C09.v for every size, capacity, count, value and throw index: C09_resize_grow_strong and C09_insert_count_at_end_strong (either all elements are built or memory is exactly as before, never a lifetime error), C09_assign_grow_basic (repaired order: size kept, elements live, nothing alive beyond size after a throw at any point), C09_uninitialized_fill_cleanup; C09_insert_count_middle_refuted is the machine-checked witness of the recorded known finding (insert of several elements before end(): moved-from elements visible and live objects beyond size()). All other operations, flavours, allocation failures and the sets are decided by fault enumeration on the implementation: every scenario (operation x position x count x spare capacity or not x inline/heap x element category x flavour, 22 vector configurations) is re-run with the k-th throwing-capable event (element construction / copy / assignment, allocator call) throwing, for every k until the operation completes; after each injected throw: live-object ledger, allocator ledger, contents unchanged for the documented strong operations, container still usable; sets: random histories with injected exceptions judged by the same ledgers and the std::set comparison.",
+    "note": "Known finding F11 (known_findings.json). Strong guarantee is read on the value interface (capacity/data() may change). Theorems cover the algorithms named; the rest is fault enumeration (finite scenarios, exhaustive in the throw index).",
+    "design": "5 C09"}
+
 REASONS = {}
 
 
